@@ -15,7 +15,8 @@ META = ["rulelist", "rule", "rulename", "defined-as", "elements", "c-wsp", "c-nl
         "repetition", "repeat", "element", "group", "option", "char-val", "num-val", "bin-val", "dec-val", "hex-val", "prose-val",
         "case-insensitive-string", "case-sensitive-string", "quoted-string"]
 OWN = ["foo", "Bar-1", "b-one", "b-two", "x"]
-BODIES = ['"x"', '%x41-5A / "_"', '1*DIGIT', 'foo / "y"', '*( ALPHA / "-" )', '[ "q" ] x', '3"z"', 'rulename "!"', 'CRLF WSP']
+BODIES = ['"x"', '%x41-5A / "_"', '1*DIGIT', 'foo / "y"', '*( ALPHA / "-" )', '[ "q" ] x', '3"z"', 'rulename "!"', 'CRLF WSP',
+          '1*digit hexdig', 'cr lf / Bit', '2*3alpha Wsp', 'Rulename c-WSP']
 
 CORPUS = [
     {"defs": [["DIGIT", "=", '"x"']], "via": "create"},
@@ -67,8 +68,48 @@ def registry_trace(seed, nops):
     for k, (o, e) in enumerate(zip(out, d["obs"])):
         if expand_sym(o, d["sym"]) != e:
             return {"seed": seed, "nops": nops, "step": k, "op": d["lines"][k], "history": d["lines"][max(0, k - 6):k + 1],
-                    "model": expand_sym(o, d["sym"])[-600:], "code": e[-600:]}, kinds
+                    "model": expand_sym(o, d["sym"])[-600:], "code": e[-600:],
+                    "frame_violation": frame_violation(d["lines"][k], d["obs"][k - 1] if k else "", e)}, kinds
     return None, kinds
+
+
+def frame_violation(op_line, before, after):
+    """Adjudication of a registry disagreement by the property itself: did an operation issued through class c change an
+    object owned by ANOTHER class (stored name or definition), or another class's part of the map?  Reads the REAL
+    registry's dumps before and after the operation; returns a description or None."""
+    toks = op_line.split()
+    if len(toks) < 3 or toks[1] not in ("ref", "def", "assign", "get") or " ## " not in before or " ## " not in after:
+        return None
+    c = toks[2]
+
+    def parts(dump):
+        body = dump.split(" ## ", 1)[1]
+        m, h = body.split(" || ", 1) if " || " in body else (body, "")
+        return m.split(" "), h
+
+    def heap(h):
+        # objIdx:owner:name:definition   (the definition may contain spaces and colons: split the first three only)
+        out = {}
+        import re
+        for mm in re.finditer(r"(?:^| )(\d+):(\d+):([^:\s]+):", h):
+            out[mm.group(1)] = (mm.group(2), mm.group(3), mm.start())
+        # definitions = text between this entry and the next
+        keys = sorted(out, key=lambda k: out[k][2])
+        full = {}
+        for n, k in enumerate(keys):
+            end = out[keys[n + 1]][2] if n + 1 < len(keys) else len(h)
+            full[k] = (out[k][0], out[k][1], h[out[k][2]:end].strip())
+        return full
+    mb, hb = parts(before)
+    ma, ha = parts(after)
+    for x in set(mb) ^ set(ma):
+        if x and x.split(":")[0] != c:
+            return "operation %r through class %s changed the map entries of class %s: %s" % (op_line, c, x.split(":")[0], x)
+    fb, fa = heap(hb), heap(ha)
+    for k, (owner, name, text) in fb.items():
+        if k in fa and fa[k] != (owner, name, text) and owner != c:
+            return "operation %r through class %s changed object %s owned by class %s: %r -> %r" % (op_line, c, k, owner, text[:120], fa[k][2][:120])
+    return None
 
 
 def run(ctx):
@@ -94,6 +135,11 @@ def run(ctx):
     with ThreadPoolExecutor(16) as ex:
         traces = list(ex.map(lambda k: registry_trace(ctx.seed * 1000 + k, nops), range(ntr)))
     corr_bad = [t for t, _ in traces if t is not None]
+    for t in corr_bad:
+        if t.get("frame_violation") and rep < 3:
+            found = True
+            rep += 1
+            ctx.report("isolation broken: " + t["frame_violation"], {"kind": "registry-frame", **t}, key="registry-frame:" + lib.digest([t["seed"], t["step"]]))
     opkinds = {}
     for _, kinds in traces:
         for k, v in kinds.items():
@@ -115,6 +161,10 @@ def run(ctx):
 
 
 def replay(rp):
+    if rp.get("kind") == "registry-frame":
+        t, _ = registry_trace(rp["seed"], rp["nops"])
+        print(json.dumps(t, indent=1)[:3000])
+        return 1 if t is not None and t.get("frame_violation") else 0
     if rp.get("broken") == "correspondence":
         bad = 0
         for smp in rp.get("first_disagreements", []):
